@@ -69,9 +69,10 @@ def is_record_type(q, ctx=None):
 
 
 class Event(object):
-    __slots__ = ("name", "recv", "args", "result", "node")
-    def __init__(self, name, recv, args, result, node=None):
+    __slots__ = ("name", "recv", "args", "result", "node", "guard")
+    def __init__(self, name, recv, args, result, node=None, guard=None):
         self.name, self.recv, self.args, self.result, self.node = name, recv, tuple(args), result, node
+        self.guard = guard if guard is not None else tm.TRUE
     def __repr__(self):
         return "%s(%s%s)->%r" % (self.name, ("recv=%r; " % self.recv) if self.recv is not None else "", ", ".join(map(repr, self.args)), self.result)
 
@@ -133,6 +134,7 @@ class Ctx(object):
         self.string_literals_as_ptr = True
         self.global_sorts = {}
         self.log_stores = False   # append Event("store", ...) for every write to heap memory
+        self.merge_ifs = False    # join the two branches of an if into one state (values become ite terms)
 
 
 def fresh(prefix, sort):
@@ -784,6 +786,8 @@ class Exec(object):
         res = fresh("ret_" + short, rs if self.qt(n) != "void" else "I")
         if is_record_type(self.qt(n), self.ctx):
             res = fresh("retobj_" + short, "P")
+        if n.get("valueCategory") == "lvalue":
+            res = fresh("retref_" + short, "P")      # a call returning a reference yields the address of an object
         st.events.append(Event(name, recv, args, res, n))
         if name not in self.ctx.pure and short not in self.ctx.pure:
             self.havoc_heap(st, name)
@@ -1015,12 +1019,47 @@ class Exec(object):
                 out.extend(self.exec(then, [s])); continue
             if c is tm.FALSE:
                 out.extend(self.exec(els, [s]) if els else [s]); continue
+            if self.ctx.merge_ifs:
+                base_pc = list(s.pc)
+                sa, sb = s.clone(), s.clone()
+                ra = self.exec(then, [sa]) if sa.assume(c) else []
+                rb = (self.exec(els, [sb]) if els else [sb]) if sb.assume(tm.not_(c)) else []
+                if len(ra) == 1 and len(rb) == 1 and ra[0].status == "run" and rb[0].status == "run" and ra[0].hprefix == rb[0].hprefix:
+                    out.append(self.merge(c, ra[0], rb[0], base_pc, len(s.events)))
+                else:
+                    out.extend(ra + rb)
+                continue
             sa, sb = s.clone(), s
             if sa.assume(c):
                 out.extend(self.exec(then, [sa]))
             if sb.assume(tm.not_(c)):
                 out.extend(self.exec(els, [sb]) if els else [sb])
         return out
+
+    def merge(self, c, a, b, base_pc, nev):
+        m = a.clone()
+        m.pc = base_pc
+        for k in set(a.locals) | set(b.locals):
+            va, vb = a.locals.get(k), b.locals.get(k)
+            if va is vb or va == vb:
+                continue
+            if isinstance(va, T) and isinstance(vb, T):
+                m.locals[k] = tm.ite(c, va, vb) if va.sort == vb.sort else tm.ite(c, self.coerce(va, vb.sort), vb)
+            elif va is None or vb is None:
+                m.locals[k] = va if va is not None else vb
+            else:
+                raise Undecided("merge of aggregate local")
+        for k in set(a.heap) | set(b.heap):
+            ha, hb = self.heap_arr(a, k), self.heap_arr(b, k)
+            m.heap[k] = ha if ha is hb else tm.ite(c, ha, hb)
+        common = a.events[:nev]
+        m.events = list(common)
+        for e in a.events[nev:]:
+            m.events.append(Event(e.name, e.recv, e.args, e.result, e.node, tm.and_(c, e.guard)))
+        for e in b.events[nev:]:
+            m.events.append(Event(e.name, e.recv, e.args, e.result, e.node, tm.and_(tm.not_(c), e.guard)))
+        m.notes = list(dict.fromkeys(a.notes + b.notes))
+        return m
 
     def st_ReturnStmt(self, n, st):
         if not n.get("inner"):
